@@ -242,6 +242,9 @@ func ipCorner(r *rand.Rand) net.IP {
 	case 4:
 		return net.IPv4(0x29, 0x29, 0x29, 0x29) // octets that look like the PDU address IEI
 	}
+	if r.Intn(2) == 0 {
+		return ipv4Class(r)
+	}
 	return net.IP(rbytes(r, 4))
 }
 
